@@ -299,6 +299,7 @@ type checker struct {
 	kfPopen   bool
 	kfFileArg bool
 	kfUnpack  bool
+	kfSetMT   bool
 	runs      int
 	nsamp     int
 }
@@ -558,8 +559,27 @@ func (ck *checker) isKF(c c08Case) string {
 		if ck.kfUnpack && unpackSFormat(k) {
 			return "C08-unpack-s-length-panic"
 		}
+		if ck.kfSetMT && c.Flags&flagCPU != 0 && setmetatableOnFile(k) {
+			return "C08-debug-setmetatable-file-fatal"
+		}
 	}
 	return ""
+}
+
+// recogniser of C08-debug-setmetatable-file-fatal: debug.setmetatable whose
+// first argument is a file handle made outside (a userdata that already has a
+// finalizer in the enclosing context's pool), called in a context with a hard
+// limit (here: the cpu guard of contexts requiring cpusafe).
+func setmetatableOnFile(k c08Call) bool {
+	if k.Fn != "debug.setmetatable" {
+		return false
+	}
+	switch k.Spell {
+	case "mm-call", "mm-index", "mm-concat", "gsub-fn":
+		return false // the handle is not the first argument the function receives
+	}
+	a := firstArg(k.Args)
+	return a == "H" || a == "io.stdout"
 }
 
 // recogniser of C08-unpack-s-length-panic: string.unpack whose format string
@@ -763,14 +783,24 @@ func (ck *checker) calibrate(k c08Call) *effect {
 const childEnv = "VERIF_C08_CHILD"
 
 func childMain(spec string) {
-	// spec: exit:<mask>
-	mask, _ := strconv.Atoi(strings.TrimPrefix(spec, "exit:"))
+	// spec: exit:<mask> or case:<json of a c08Case>
 	w, err := newWorld()
 	if err != nil {
 		fmt.Println("C08CHILD harness-error", err)
 		return
 	}
 	defer w.close()
+	if strings.HasPrefix(spec, "case:") {
+		var c c08Case
+		if err := json.Unmarshal([]byte(strings.TrimPrefix(spec, "case:")), &c); err != nil {
+			fmt.Println("C08CHILD harness-error", err)
+			return
+		}
+		o := w.runCase(c, false)
+		fmt.Printf("C08CHILD ran panic=%q events=%d\n", o.Panic, len(o.Events))
+		return
+	}
+	mask, _ := strconv.Atoi(strings.TrimPrefix(spec, "exit:"))
 	src := fmt.Sprintf(`local ctx, cerr = runtime.callcontext({flags = %q}, function()
   emit('res', 0, pcall(os.exit, 7))
 end)
@@ -779,6 +809,32 @@ emit('ctx', ctx.status, cerr)`, flagString(mask))
 	w.runLua(src, o, nil)
 	p := parseObs(o, 1)
 	fmt.Printf("C08CHILD returned seen=%v refused=%v msg=%q panic=%q err=%q\n", p.calls[0].seen, p.calls[0].refused, p.calls[0].msg, o.Panic, o.Err)
+}
+
+// crashesInChild runs the case in a child process and reports whether the
+// process died (fatal runtime error, unrecovered panic) instead of finishing.
+func crashesInChild(c c08Case) (bool, string) {
+	bin := os.Getenv("VERIF_BIN")
+	if bin == "" {
+		bin = os.Args[0]
+	}
+	b, _ := json.Marshal(c)
+	cmd := exec.Command(bin, "-test.run", "^TestC08$", "-test.count", "1")
+	cmd.Env = append(os.Environ(), childEnv+"=case:"+string(b), "VERIF_OUT=", "VERIF_REPLAY=")
+	out, _ := cmd.CombinedOutput()
+	for _, l := range strings.Split(string(out), "\n") {
+		if strings.HasPrefix(l, "C08CHILD ran") {
+			return !strings.Contains(l, `panic=""`), l
+		}
+	}
+	desc := string(out)
+	if i := strings.Index(desc, "fatal error"); i >= 0 {
+		desc = desc[i:]
+	}
+	if len(desc) > 300 {
+		desc = desc[:300]
+	}
+	return true, desc
 }
 
 // exitProbe runs os.exit(7) under the flag mask in a child process. Returns
@@ -792,15 +848,21 @@ func exitProbe(mask int) (executed, refused bool, desc string) {
 	cmd.Env = append(os.Environ(), childEnv+"=exit:"+strconv.Itoa(mask), "VERIF_OUT=", "VERIF_REPLAY=")
 	out, err := cmd.CombinedOutput()
 	desc = strings.TrimSpace(string(out))
-	if ee, ok := err.(*exec.ExitError); ok && ee.ExitCode() == 7 {
-		return true, false, "process exited with status 7"
-	}
 	for _, l := range strings.Split(desc, "\n") {
 		if strings.HasPrefix(l, "C08CHILD returned") {
 			return false, strings.Contains(l, "refused=true"), l
 		}
 	}
-	return false, false, "child gave no verdict: " + desc
+	// The child ended before printing its verdict. golua's os.exit maps any true
+	// argument to exit status 0, so the status does not identify the call; a
+	// process that ended silently (no crash report) was ended by os.exit.
+	if strings.Contains(desc, "unexpected call to os.Exit") {
+		return true, false, "the process was ended by os.exit"
+	}
+	if strings.Contains(desc, "fatal error") || strings.Contains(desc, "panic:") || strings.Contains(desc, "C08CHILD harness-error") {
+		return false, false, "child crashed: " + desc
+	}
+	return true, false, fmt.Sprintf("the process was ended by os.exit (%v)", err)
 }
 
 // ---------------------------------------------------------------- the test
@@ -907,6 +969,12 @@ func TestC08(t *testing.T) {
 	ck.kfUnpack = CheckKnown(rec, "C08-unpack-s-length-panic", func() bool {
 		c := single(ck.byName["string.unpack"], 0, `"s", S .. "/exist.txt"`, "pcall")
 		return ck.judge(c, ck.run(c)).msg != ""
+	})
+
+	ck.kfSetMT = CheckKnown(rec, "C08-debug-setmetatable-file-fatal", func() bool {
+		// the defect kills the process: demonstrate it in a child
+		crashed, _ := crashesInChild(single(ck.byName["debug.setmetatable"], flagCPU, `H, {}`, "pcall"))
+		return crashed
 	})
 
 	nviol := 0
@@ -1094,6 +1162,10 @@ func TestC08(t *testing.T) {
 				return ""
 			}
 			args = first + rest
+		}
+		if ck.kfSetMT && setmetatableOnFile(c08Call{Fn: f.Name, Args: args}) {
+			// construction around the open finding: a table instead of the file handle
+			args = "{}" + args[len(firstArg(args)):]
 		}
 		if ck.kfUnpack && unpackSFormat(c08Call{Fn: f.Name, Args: args}) {
 			// construction around the open finding: a format that is not a counted string
